@@ -66,6 +66,79 @@ def _size(types, cls, n):
         return -1
 
 
+def interleaved_encoders(chk, types, rng, n_cases):
+    """Two encodings in flight at once (another thread of the process encodes while this one is inside its loop): the
+    interleaving is forced deterministically by an int whose shift performs a complete second encoding into a
+    different sink; both outputs must be what they are alone.  (Followed by a short run with two real threads.)"""
+    def want(n):
+        out = bytearray()
+        while True:
+            out.append((n & 0x7F) | (0x80 if n >> 7 else 0))
+            n >>= 7
+            if not n:
+                return bytes(out)
+
+    class Paused(int):
+        hook = None
+
+        def _w(self, r):
+            r = Paused(r)
+            r.hook = self.hook
+            return r
+
+        def __rshift__(self, k):
+            if self.hook:
+                self.hook()
+            return self._w(int(self) >> k)
+
+        def __and__(self, k):
+            return int(self) & k
+
+    for i in range(n_cases):
+        a = rng.getrandbits(rng.choice([7, 14, 21, 28, 31]))
+        b = rng.getrandbits(rng.choice([7, 14, 21, 28, 31]))
+        at = rng.randrange(0, 5)
+        calls, other = [0], Sink()
+
+        def hook():
+            calls[0] += 1
+            if calls[0] == at + 1:
+                types.VarInt.send(b, other)
+        v = Paused(a)
+        v.hook = hook
+        mine = Sink()
+        kind, val = run_with_budget(lambda: types.VarInt.send(v, mine), 20000)
+        chk.evaluations += 1
+        chk.case(('interleaved', a, b, at))
+        got = (kind, mine.value() if kind == 'ok' else repr(val), other.value())
+        exp = ('ok', want(a), want(b) if calls[0] > at else b'')
+        if got != exp:
+            chk.violation('VarInt.send:interleaved', 'encoding %d while an encoding of %d runs after %d step(s): wrote %r and %r, expected %r and %r'
+                          % (a, b, at, got[1], got[2], exp[1], exp[2]), {'a': a, 'b': b, 'at': at})
+            return
+    import sys
+    import threading
+    bad, old = [], sys.getswitchinterval()
+
+    def worker(vals):
+        for n in vals:
+            s = Sink()
+            types.VarInt.send(n, s)
+            if s.value() != want(n):
+                bad.append((n, s.value().hex()))
+                return
+    sys.setswitchinterval(1e-6)
+    try:
+        ts = [threading.Thread(target=worker, args=([rng.getrandbits(31) for _ in range(4000)],)) for _ in range(3)]
+        [t.start() for t in ts]
+        [t.join() for t in ts]
+    finally:
+        sys.setswitchinterval(old)
+    chk.evaluations += 12000
+    if bad:
+        chk.violation('VarInt.send:interleaved', 'three threads encoding at once: %d came out as %s' % bad[0], {'n': bad[0][0]})
+
+
 def run(chk):
     core.import_minecraft()
     from minecraft.networking import types
@@ -176,6 +249,8 @@ def run(chk):
             swept += 1
         chk.evaluations += swept
         chk.extra['swept_below_2^21'] = swept
+
+    interleaved_encoders(chk, types, rng, 400 if tier == 'quick' else 6000)
 
     # -- 3. I->S: random long inputs judged by the contract in TLC
     obs = []
